@@ -506,6 +506,40 @@ fn heavy_duplicates(ctx: &mut Ctx) {
     }
 }
 
+/// Duplicates whose second copy is the last pair written to an on-disk bucket that is split into several shards
+/// and holds an exact multiple of the splitter's 1024-pair read buffer (and one pair more, and one less).
+fn offline_split_duplicates(ctx: &mut Ctx) {
+    use sux::utils::FromIntoIterator;
+    for n in [98 * 1024usize, 98 * 1024 + 1, 98 * 1024 - 1, 100 * 1024] {
+        for filter in [false, true] {
+            for lb in [0u32, 1] {
+                if !ctx.case(|| format!("VBuilder::try_build offline log2_buckets={lb} n={n} filter={filter}: the last key repeats the first, check_dups=true")) {
+                    continue;
+                }
+                ctx.nontrivial();
+                let keys: Vec<usize> = (0..n - 1).map(|i| i * 3 + 7).chain([7]).collect();
+                let r = guard(|| -> Result<usize, String> {
+                    let b = VBuilder::<usize, BitFieldVec<usize>>::default().offline(true).log2_buckets(lb).check_dups(true).max_num_threads(2);
+                    if filter {
+                        b.try_build_filter(FromIntoIterator::from(keys.clone()), 9, no_logging![]).map(|f| f.len()).map_err(|e| format!("{e:#}"))
+                    } else {
+                        b.try_build_func(FromIntoIterator::from(keys.clone()), FromIntoIterator::from((0..n).map(|i| i % 5)), no_logging![]).map(|f| f.len()).map_err(|e| format!("{e:#}"))
+                    }
+                });
+                match r {
+                    Outcome::Panic(m) => ctx.violation("C17|VBuilder::try_build|panic-on-duplicate-keys", format!("offline log2_buckets={lb} n={n} filter={filter}: {m}")),
+                    Outcome::Ret(Ok(len)) => ctx.violation("C17|VBuilder::try_build|ok-with-duplicate-keys", format!("offline log2_buckets={lb} n={n} filter={filter}: returned Ok (len {len}) although the last key repeats the first")),
+                    Outcome::Ret(Err(e)) => {
+                        if !e.contains("Duplicate key") {
+                            ctx.violation("C17|VBuilder::try_build|wrong-error-for-duplicate-keys", format!("offline log2_buckets={lb} n={n} filter={filter}: {e}"));
+                        }
+                    }
+                }
+            }
+        }
+    }
+}
+
 fn heavy_probe_child(spec: &str) -> ! {
     let p: Vec<&str> = spec.split(':').collect();
     let (kind, n, copies, threads): (&str, usize, usize, usize) = (p[0], p[1].parse().unwrap(), p[2].parse().unwrap(), p[3].parse().unwrap());
@@ -534,5 +568,6 @@ fn main() {
     line_source_faults(&mut ctx, t);
     duplicates(&mut ctx, t);
     heavy_duplicates(&mut ctx);
+    offline_split_duplicates(&mut ctx);
     ctx.finish();
 }
